@@ -18,7 +18,9 @@ import (
 
 // ---- lexical pools (the explored lexical domain, see DESIGN C14) ---------------------------
 
-var gNames = []string{"p", "q", "right", "resource", "operation", "owner", "a", "b1", "can_read", "x:y", "zZ_9", "fact", "user", "time"}
+var gNames = []string{"p", "q", "right", "resource", "operation", "owner", "a", "b1", "can_read", "x:y", "zZ_9", "fact", "user", "time",
+	// names that begin with a word of the expression language (they are ordinary names)
+	"union_member", "intersection_of", "starts_with_a", "ends_with_z", "or_else", "allow_list", "check_in", "not_before", "in_group"}
 var gVars = []string{"x", "y", "0", "1", "var1", "file", "true", "resource", "A_b:c"}
 var gStrings = []string{"", "a", "read", "/a/file1.txt", "hello world", "é日本", "a//b", "x;y", "check if", "$x", "{p}", "1 < 2", "[1,2]", "tab\there", "#sym", "hex:41", "2006-01-02T15:04:05Z", "true", "42", "100%", "50%off", "/my%20files", "%s%d%v", "%",
 	// strings whose content is an operator, a bracket or a keyword of the grammar
@@ -64,6 +66,10 @@ func gScalar(r *rand.Rand, params Params, allowVar, allowParam bool) GTerm {
 			return GTerm{d, ast.Date(uint64(t.Unix()))}
 		case 5:
 			b := Pick(r, SmallBytes)
+			if r.Intn(3) == 0 {
+				// byte arrays whose first digits are letters that also occur in the "hex:" prefix
+				b = Pick(r, [][]byte{{0xee}, {0xee, 0xee, 0x01}, {0xe0, 0xff}, {0xe1}, {0xec, 0x0e}, {0xfe, 0xed}, {0x0e}})
+			}
 			h := hex.EncodeToString(b)
 			if r.Intn(2) == 0 {
 				h = strings.ToUpper(h)
